@@ -23,7 +23,7 @@ ASSUMPTIONS = [
     "'unclosed transport' ResourceWarning is recorded but tolerated in exactly that situation",
     "external cancellation of a caller's task is outside the property's quantifier and is not driven",
 ]
-MUST = ["answered_request_right_after_a_rejected_one", "reconnect_after_failure", "reconnect_after_close", "reconnect_after_peerdrop", "reconnect_after_loop_change",
+MUST = ["nothing_open_at_the_moment_of_return", "answered_request_right_after_a_rejected_one", "reconnect_after_failure", "reconnect_after_close", "reconnect_after_peerdrop", "reconnect_after_loop_change",
         "keepalive_reuse", "no_keepalive_closed_after_request", "final_close_zero", "max_one_checked",
         "queued_caller_cancelled", "concurrent_close_and_requests", "setting_write_histories", "transparent_reconnect_checked", "two_objects_one_endpoint", "keepalive_option_rejected"]
 EXHAUSTIVE = {"quick": True, "thorough": True}
@@ -137,6 +137,13 @@ def check_run(sc, run, part: Part):
         op = c["step"][0]
         sids = q.get("live_sids") or []
         stale_only = ka and bool(sids) and all(opened_in.get(sid, c["seg"]) < c["seg"] for sid in sids)
+        if op == "read" and not ka and c.get("open_at_return") and not q["live"]:
+            # closed a moment later - but when the call returned, its transport had not even been told to close: the caller (and whatever it does
+            # next in the same loop iteration) still saw an open connection
+            out.append((f"C10/{tr}/open-after-request/at-return",
+                        f"{ctx}: when request #{c['idx']} returned ({c['outcome']}, keep-alive off) {c['open_at_return']} transport(s) were open and not closing"))
+        elif op == "read" and not ka and not q["live"]:
+            part.count("nothing_open_at_the_moment_of_return")
         if op == "read" and not ka:
             if q["live"] != 0:
                 out.append((f"C10/{tr}/open-after-request",
